@@ -116,7 +116,10 @@ class Gen:
         self.tag("ty:" + c)
         if c == "option": return OPT(self.ty(depth - 1, named))
         if c == "vec": return VEC(self.ty(depth - 1, named))
-        if c == "arr": return {"k": "arr", "t": self.ty(depth - 1, named), "n": r.choice([0, 1, 2, 3])}
+        if c == "arr":
+            n = r.choice([0, 1, 2, 3])
+            # known finding C03-zero-length-array: `[T; 0]` prints `[]` but still registers T as a dependency; keep T primitive here
+            return {"k": "arr", "t": self.ty(depth - 1, named) if n else P(r.choice(["u8", "f32", "String"])), "n": n}
         if c == "tuple": return {"k": "tuple", "ts": [self.ty(depth - 1, named) for _ in range(r.choice([1, 2, 3]))]}
         if c == "map":
             key = r.choice([P("String"), P("String"), P("u8"), P("i64"), P("char")])
@@ -251,7 +254,8 @@ class Gen:
                 v["shape"], v["fields"] = "unit", []
             elif sh == "newtype":
                 ty = r.choice(objlike) if repr_ == "internal" else self.ty(depth, pool)
-                v["shape"], v["fields"] = "tuple", [self.field(None, ty, allow=("docs", "inline"))]
+                # known finding C03-tagged-newtype-inline: inline on the field of a newtype variant of an internally/adjacently tagged enum
+                v["shape"], v["fields"] = "tuple", [self.field(None, ty, allow=("docs", "inline") if repr_ in ("external", "untagged") else ("docs",))]
             elif sh == "tuple":
                 v["shape"] = "tuple"
                 v["fields"] = [self.field(None, self.ty(depth, pool), allow=()) for _ in range(r.choice([2, 3]))]
@@ -311,12 +315,32 @@ class Gen:
                     it["fields"].append({"name": "flat", "ty": clean(r.choice(objs)), "attrs": {"flatten": True}})
                     self.tag("field:flatten")
                 if r.random() < 0.5:
-                    t = clean(r.choice(named))
+                    # known finding C03-inlined-default: inlining a generic type drags the defaults of its parameters along as imports
+                    cands = [t for t in named if not any(g.get("default") for i2 in items if i2["name"] == t["id"] for g in i2.get("generics", []))]
+                    t = clean(r.choice(cands))
                     it["fields"].append({"name": "inl", "ty": r.choice([t, VEC(t), OPT(t)]), "attrs": {"inline": True}})
                     self.tag("field:inline")
             items.append(it)
             if not it["generics"]:
                 named.append(dict(N(it["name"]), _obj=(it["kind"] == "struct" and it["shape"] == "named" and bool(it["fields"])) or (it["kind"] == "enum" and enum_is_obj(it))))
+        # several types per file, importing overlapping name sets from another shared file
+        if r.random() < 0.35:
+            for it in items[:2]:
+                it["attrs"]["export_to"] = "deps.ts"
+            for it in items[2:]:
+                if not it["generics"]:
+                    it["attrs"]["export_to"] = "shared/all.ts"
+            self.tag("layout:shared+deps")
+        # type aliases hiding generic arguments (`type Al = Vec<L>`): the derive only sees the alias name
+        aliases = []
+        for it in items[2:]:
+            if it["kind"] == "struct" and it.get("shape") == "named":
+                for f in it["fields"]:
+                    if f["ty"]["k"] in ("vec", "option", "map", "arr", "named") and not f["attrs"] and r.random() < 0.25 and '"k": "param"' not in json_str(f["ty"]):
+                        nm = f"Al{idx}_{len(aliases)}"
+                        aliases.append({"name": nm, "ty": copy.deepcopy(f["ty"])})
+                        f["ty"] = dict(f["ty"], alias=nm)
+                        self.tag("field:alias")
         items = [strip(i) for i in items]
         imap = {i["name"]: i for i in items}
         probes = []
@@ -334,7 +358,7 @@ class Gen:
             t = self.ty(3, [clean(x) for x in named[:3]])
             if t["k"] != "named":
                 probes.append({"ty": t, "values": [self.val(t, imap), self.val(t, imap)]})
-        return {"items": items, "probes": probes}
+        return {"items": items, "probes": probes, "aliases": aliases}
 
 
 def enum_is_obj(it):
